@@ -123,8 +123,9 @@ func runC01(c *an.Ctx, p *an.Prog, thorough bool) {
 		sub := an.NewCtx("C01", c.Tier, c.Seed)
 		sub.P = p
 		c156(sub, p, newFsx(p))
+		c155(sub, p, newFsx(p)) // a failed add leaves no record (otherwise exists/list disagree with the history)
 		for _, o := range sub.Obs {
-			k := strings.TrimPrefix(o.Key, "C15.6|")
+			k := strings.TrimPrefix(strings.TrimPrefix(o.Key, "C15.6|"), "C15.5|")
 			if o.Status == "discharged" {
 				c.OK("C01.7", k, o.Pos, o.Detail)
 			} else {
